@@ -253,8 +253,10 @@ theorem known_defect_guards :
     "CacheSizeHistoSlab" ∈ Generated.Fields.assigned "lossless.BackwardRefsScratch" ∧
     "intraL" ∈ Generated.Fields.assigned "lossy.Decoder" := by decide
 
-/-- non-vacuity of the quantifiers above: 16 types, 269 fields, 117 of them `reset` -/
-example : pairs.length = 16 ∧ (pairs.map (·.1.fields.length)).sum = 269 ∧
-    (pairs.map (·.2.reset.length)).sum = 117 := by decide
+/-- non-vacuity of the quantifiers above: 16 types, some 270 fields, well over 100 of them `reset`
+    (lower bounds only, so that adding a field does not break this example: `classification_exact`
+    and `fields_covered` are what must notice a new field) -/
+example : pairs.length = 16 ∧ 250 ≤ (pairs.map (·.1.fields.length)).sum ∧
+    100 ≤ (pairs.map (·.2.reset.length)).sum := by decide
 
 end Webp.Props.C11
